@@ -100,6 +100,68 @@ def chain_methods(e):
     return out, e
 
 
+def _same_rule(e, rv):
+    """`r.clone()` / `(*r).clone()` / `r` of the closure's own parameter"""
+    t = show(e, 0).replace(" ", "").replace("(*%s)" % rv, rv)
+    return t in (rv, rv + ".clone()", "*" + rv, rv + ".to_owned()")
+
+
+def as_filter(m):
+    """A filter_map call that keeps or drops the element itself, as the equivalent `filter` call (None when it is not of that form)."""
+    if m["m"] != "filter_map" or not m["args"] or m["args"][0]["k"] != "closure" or len(m["args"][0]["params"]) != 1:
+        return None
+    cl = m["args"][0]
+    bs = pat_binds(cl["params"][0])
+    if not bs:
+        return None
+    rv = bs[0]
+    b = cl["body"]
+    while b["k"] == "block" and len(b["stmts"]) == 1 and b["stmts"][0]["k"] == "expr":
+        b = b["stmts"][0]["e"]
+    cond = None
+    if b["k"] == "mcall" and b["m"] == "then_some" and len(b["args"]) == 1 and _same_rule(b["args"][0], rv):
+        cond = b["recv"]
+    elif b["k"] == "mcall" and b["m"] == "then" and len(b["args"]) == 1 and b["args"][0]["k"] == "closure" and not b["args"][0]["params"] and _same_rule(b["args"][0]["body"], rv):
+        cond = b["recv"]
+    elif b["k"] == "if" and b.get("else") is not None and b["cond"]["k"] != "letcond":
+        t, e = show(b["then"], 0).replace(" ", ""), show(b["else"], 0).replace(" ", "")
+        if t.strip("{}") in ("Some(%s.clone())" % rv, "Some(%s)" % rv) and e.strip("{}") == "None":
+            cond = b["cond"]
+    if cond is None:
+        return None
+    while cond["k"] == "paren":
+        cond = cond["e"]
+    return dict(m, m="filter", args=[dict(cl, body=cond)])
+
+
+def loop_selection(stmts, rp):
+    """`let mut v = vec![]; for r in <rules> { if P { v.push(r.clone()) } } v` -> the closure `|r| P` (None when the body is not of that form)."""
+    if len(stmts) != 3 or stmts[0]["k"] != "let" or stmts[0]["pat"]["k"] != "ident" or stmts[1]["k"] != "expr" or stmts[1]["e"]["k"] != "for":
+        return None
+    v = stmts[0]["pat"]["name"]
+    if show(stmts[0].get("init"), 0).replace(" ", "") not in ("vec![]", "vec!()", "Vec::new()"):
+        return None
+    lp = stmts[1]["e"]
+    if rp not in {x["segs"][0] for x in walk(lp["e"]) if x["k"] == "path"} or [m for m in find(lp["e"], "mcall") if m["m"] not in ("iter", "into_iter")]:
+        return None
+    if path_of(strip(stmts[2]["e"])) != v:
+        return None
+    bs = pat_binds(lp["pat"])
+    as_stmts = lambda b: b["stmts"] if b.get("k") == "block" else [{"k": "expr", "e": b, "l": b.get("l", 0)}]
+    body = as_stmts(lp["body"])
+    if len(bs) != 1 or len(body) != 1 or body[0]["k"] != "expr" or body[0]["e"]["k"] != "if" or body[0]["e"].get("else") is not None or body[0]["e"]["cond"]["k"] == "letcond":
+        return None
+    th = as_stmts(body[0]["e"]["then"])
+    if len(th) != 1 or th[0]["k"] != "expr" or th[0]["e"]["k"] != "mcall" or th[0]["e"]["m"] != "push" or path_of(th[0]["e"]["recv"]) != v or not _same_rule(th[0]["e"]["args"][0], bs[0]):
+        return None
+    return {"k": "closure", "l": lp["l"], "params": [lp["pat"]], "body": body[0]["e"]["cond"]}
+
+
+def setof_names(f):
+    """locals of an Eliminator method that hold the set of outputs of a child (they are looked up by name, not inlined)"""
+    return [b for s in f.body["stmts"] if s["k"] == "let" and s.get("init") is not None for b in pat_binds(s["pat"])]
+
+
 def g1(rep, src):
     rep.rule(
         "G1",
@@ -126,22 +188,35 @@ def g1(rep, src):
             if rp is None or len(kids) != want:
                 rep.undecidable("G1", key, "cannot identify the rules / child parameters (rules=%s children=%s)" % (rp, kids), f.where())
                 continue
-            # the returned expression: tail of the body
-            stmts = f.body["stmts"]
+            # the returned expression: tail of the body (named locals such as `let left_property = left.attributes().output();` are read through)
+            from .canon import canon_view
+
+            fc = canon_view(f, src, helpers=False, multi_use=True, keep_lets=tuple(setof_names(f)) if who == "Eliminator" else ())
+            stmts = fc.body["stmts"]
             tail = stmts[-1]["e"] if stmts and stmts[-1]["k"] == "expr" and not stmts[-1].get("semi") else None
             if tail is None:
                 rep.undecidable("G1", key, "no tail expression", f.where())
                 continue
-            ms, root = chain_methods(tail)
-            names = [m["m"] for m in ms]
-            if path_of(strip(root)) != rp:
-                rep.undecidable("G1", key, "the result is not a chain over the rules parameter `%s`: %s" % (rp, show(tail, 100)), f.where())
-                continue
+            loop = loop_selection(stmts, rp)
+            if loop is not None:
+                # `let mut v = vec![]; for r in rules { if P { v.push(r.clone()) } } v`  ==  rules.iter().filter(|r| P).cloned().collect()
+                ms, names = [], []
+                filters = [{"m": "filter", "args": [loop]}]
+            else:
+                ms, root = chain_methods(tail)
+                names = [m["m"] for m in ms]
+                if path_of(strip(root)) != rp:
+                    rep.undecidable("G1", key, "the result is not a chain over the rules parameter `%s`: %s" % (rp, show(tail, 100)), f.where())
+                    continue
+                # `filter_map(|r| P.then(|| r.clone()))` / `.then_some(r.clone())` / `if P { Some(r.clone()) } else { None }`  ==  filter(|r| P).cloned()
+                ms = [as_filter(m) or m for m in ms]
+                names = [m["m"] for m in ms]
             bad = [n for n in names if n in TRUNCATING or n not in ITER_OK]
             if bad:
                 rep.violation("G1", key, "combinator(s) %s on the candidate rules (may drop or reorder consistent rules)" % bad, f.where())
                 continue
-            filters = [m for m in ms if m["m"] == "filter"]
+            if loop is None:
+                filters = [m for m in ms if m["m"] == "filter"]
             if nm in LEAF:
                 rep.instance("G1", key, {"fn": key, "predicate": "none (leaf keeps all rules)"}, nontrivial=False)
                 if filters:
